@@ -5,6 +5,7 @@ import (
 	"encoding/json"
 	"fmt"
 	"sync"
+	"sync/atomic"
 	"testing"
 	"time"
 
@@ -20,6 +21,10 @@ type TOp struct {
 	DelayMs int    `json:"delay_ms,omitempty"`
 	WaitMs  int    `json:"wait_ms,omitempty"`
 	Handler []TOp  `json:"handler,omitempty"` // requests issued from inside the firing handler
+	// Ctx: the context the request is made under: 0 the service's own,
+	// 1 and 2 request contexts (mcrew's websocket client makes one per
+	// connection) that a dropCtx operation ends
+	Ctx int `json:"ctx,omitempty"`
 }
 
 type TimerCase struct {
@@ -32,14 +37,23 @@ var timerDelays = []int{1, 3, 10, 40, 5000}
 func genTOp(t *rapid.T, label string, depth int) TOp {
 	kinds := []string{"make", "make", "make", "cancel", "wait"}
 	if depth == 0 {
-		kinds = append(kinds, "cancelAtDue", "contend")
+		kinds = append(kinds, "cancelAtDue", "contend", "dropCtx", "contendDrop")
 	} else {
 		kinds = []string{"make", "make", "cancel"}
 	}
 	op := TOp{Kind: rapid.SampledFrom(kinds).Draw(t, label+".k"), Id: rapid.SampledFrom(timerIds).Draw(t, label+".id")}
 	switch op.Kind {
+	case "dropCtx":
+		op.Id = ""
+		op.Ctx = rapid.IntRange(1, 2).Draw(t, label+".ctx")
+	case "contendDrop":
+		op.Ctx = rapid.IntRange(1, 2).Draw(t, label+".ctx")
+		op.WaitMs = rapid.SampledFrom([]int{3, 5000}).Draw(t, label+".cnew")
 	case "make", "cancelAtDue", "contend":
 		op.DelayMs = rapid.SampledFrom(timerDelays).Draw(t, label+".d")
+		if op.Kind == "make" {
+			op.Ctx = rapid.SampledFrom([]int{0, 0, 1, 2}).Draw(t, label+".ctx")
+		}
 		if op.Kind == "contend" {
 			op.DelayMs = rapid.SampledFrom([]int{1, 2, 3}).Draw(t, label+".cd")
 			op.WaitMs = rapid.SampledFrom([]int{3, 5000}).Draw(t, label+".cnew")
@@ -80,6 +94,11 @@ type incarnation struct {
 	fired     int
 	firedAt   time.Time
 	inHandler bool
+	ctx       int
+	// dropped: the context the timer was made under ended while it was
+	// neither fired nor cancelled; droppedFar: more than 50 ms before it
+	// was due; gone: it was then seen to have left the pending set
+	dropped, droppedFar, gone bool
 }
 
 type timerHarness struct {
@@ -94,6 +113,9 @@ type timerHarness struct {
 	live  map[string]*incarnation // latest accepted incarnation per id
 	bad   string
 	ctx   context.Context
+	ctxs    [3]context.Context
+	cancels [3]context.CancelFunc
+	drops   int
 	v     *ev.Verdict
 	hreq  int
 	handlers int // firing handlers currently running
@@ -130,13 +152,16 @@ func (h *timerHarness) make(op TOp, inFiringOf *incarnation) {
 	prev := h.live[op.Id]
 	h.mu.Unlock()
 	t0 := time.Now()
-	err := h.ts.Add(h.ctx, op.Id, map[string]interface{}{"inc": float64(n)}, time.Duration(op.DelayMs)*time.Millisecond)
+	h.mu.Lock()
+	rctx := h.ctxs[op.Ctx]
+	h.mu.Unlock()
+	err := h.ts.Add(rctx, op.Id, map[string]interface{}{"inc": float64(n)}, time.Duration(op.DelayMs)*time.Millisecond)
 	h.mu.Lock()
 	defer h.mu.Unlock()
 	if err != nil {
 		// "id exists" is right only if the previous incarnation of the
 		// id is still pending
-		if prev == nil || prev.cancelled {
+		if prev == nil || prev.cancelled || prev.dropped {
 			h.fail("make %q was refused (%v) although no timer with that id is pending", op.Id, err)
 		} else if prev.fired > 0 {
 			if inFiringOf == prev {
@@ -147,10 +172,10 @@ func (h *timerHarness) make(op TOp, inFiringOf *incarnation) {
 		}
 		return
 	}
-	if prev != nil && !prev.cancelled && prev.fired == 0 && prev.due.After(time.Now().Add(50*time.Millisecond)) {
+	if prev != nil && !prev.cancelled && !prev.dropped && prev.fired == 0 && prev.due.After(time.Now().Add(50*time.Millisecond)) {
 		h.fail("make %q was accepted although a timer with that id is pending (due in %v)", op.Id, time.Until(prev.due))
 	}
-	inc := &incarnation{n: n, id: op.Id, due: t0.Add(time.Duration(op.DelayMs) * time.Millisecond), delay: op.DelayMs, handler: op.Handler}
+	inc := &incarnation{n: n, id: op.Id, due: t0.Add(time.Duration(op.DelayMs) * time.Millisecond), delay: op.DelayMs, handler: op.Handler, ctx: op.Ctx}
 	h.incs[n-1] = inc
 	if prev != nil {
 		h.idReuse++
@@ -175,6 +200,9 @@ func (h *timerHarness) cancel(id string, inFiringOf *incarnation) {
 		if target.cancelled {
 			h.fail("cancel %q succeeded twice for the same timer", id)
 		}
+		if target.gone {
+			h.fail("cancel %q succeeded although that timer had already left the pending set when its context ended", id)
+		}
 		if inFiringOf == target {
 			h.fail("cancel %q from inside the handler of its own firing succeeded: the timer is still reported as pending although it has fired", id)
 		}
@@ -182,7 +210,7 @@ func (h *timerHarness) cancel(id string, inFiringOf *incarnation) {
 		if d := time.Until(target.due); d < time.Millisecond && d > -time.Millisecond {
 			h.nearDue++
 		}
-	} else if target != nil && !target.cancelled && target.fired == 0 && target.due.After(time.Now().Add(50*time.Millisecond)) {
+	} else if target != nil && !target.cancelled && !target.dropped && target.fired == 0 && target.due.After(time.Now().Add(50*time.Millisecond)) {
 		h.fail("cancel %q failed (%v) although the timer is pending (due in %v)", id, err, time.Until(target.due))
 	}
 }
@@ -221,6 +249,9 @@ func (h *timerHarness) emitter(ctx context.Context, message interface{}) error {
 	if inc.cancelled {
 		h.fail("timer %q fired although a cancel had returned success", inc.id)
 	}
+	if inc.dropped && inc.droppedFar {
+		h.fail("timer %q fired although the context it was made under had ended long before it was due", inc.id)
+	}
 	handler := inc.handler
 	h.handlers++
 	h.mu.Unlock()
@@ -241,6 +272,85 @@ func (h *timerHarness) emitter(ctx context.Context, message interface{}) error {
 		}
 	}
 	return nil
+}
+
+// markDropped ends request context k in the model: every timer made
+// under it that has neither fired nor been cancelled will, from now on,
+// either be removed without firing or (if it is about due) fire.
+// Callers hold h.mu.  It returns the context's cancel function and the
+// affected timers, and installs a fresh context for later requests.
+func (h *timerHarness) markDropped(k int) (context.CancelFunc, []*incarnation) {
+	now := time.Now()
+	var affected []*incarnation
+	for _, inc := range h.incs {
+		if inc != nil && inc.ctx == k && !inc.cancelled && inc.fired == 0 && !inc.dropped {
+			inc.dropped = true
+			inc.droppedFar = inc.due.After(now.Add(50 * time.Millisecond))
+			affected = append(affected, inc)
+		}
+	}
+	cancel := h.cancels[k]
+	h.ctxs[k], h.cancels[k] = context.WithCancel(h.ctx)
+	h.drops++
+	return cancel, affected
+}
+
+// awaitGoneMs: how long a timer whose context ended may stay in the
+// pending set before that is reported (generous: its goroutine only has
+// to be scheduled).
+var awaitGoneMs atomic.Int64
+
+func init() { awaitGoneMs.Store(3000) }
+
+// awaitGone waits until the affected timers (those that are still the
+// latest under their id) have left the pending set: they will never
+// fire, so "pending = accepted, not fired, not cancelled" has no room
+// for them.
+func (h *timerHarness) awaitGone(affected []*incarnation) {
+	deadline := time.Now().Add(time.Duration(awaitGoneMs.Load()) * time.Millisecond)
+	for {
+		p, err := h.pending()
+		if err != nil {
+			h.failLocked("pending set not serialisable: %v", err)
+			return
+		}
+		h.mu.Lock()
+		left := 0
+		for _, inc := range affected {
+			if h.live[inc.id] == inc && inc.fired == 0 && !inc.cancelled && p[inc.id] {
+				left++
+			} else {
+				inc.gone = true
+			}
+		}
+		if left > 0 && time.Now().After(deadline) {
+			for _, inc := range affected {
+				if !inc.gone {
+					h.fail("timer %q (incarnation %d) is still reported pending %d ms after the context it was made under ended; it will never fire and its id is not free", inc.id, inc.n, awaitGoneMs.Load())
+					// once seen, shrinking need not wait as long
+					awaitGoneMs.Store(500)
+				}
+			}
+			left = 0
+		}
+		h.mu.Unlock()
+		if left == 0 {
+			return
+		}
+		time.Sleep(time.Millisecond)
+	}
+}
+
+// dropCtx ends request context k while no request of the harness is in
+// flight.
+func (h *timerHarness) dropCtx(k int) {
+	h.opMu.Lock()
+	defer h.opMu.Unlock()
+	h.mu.Lock()
+	cancel, affected := h.markDropped(k)
+	h.mu.Unlock()
+	cancel()
+	h.awaitGone(affected)
 }
 
 func (h *timerHarness) pending() (map[string]bool, error) {
@@ -291,6 +401,10 @@ func (h *timerHarness) checkPending(where string) {
 			if p[id] {
 				h.fail("%s: %q is reported pending although it was cancelled", where, id)
 			}
+		case inc.dropped:
+			if p[id] && inc.gone {
+				h.fail("%s: %q is reported pending although its context ended and it had left the pending set", where, id)
+			}
 		case inc.fired > 0:
 			if p[id] && now.Sub(inc.firedAt) > 200*time.Millisecond {
 				h.fail("%s: %q is reported pending %v after it fired", where, id, now.Sub(inc.firedAt))
@@ -307,6 +421,10 @@ func checkTimers(c TimerCase) (v ev.Verdict) {
 	ctx, cancel := context.WithCancel(context.Background())
 	defer cancel()
 	h := &timerHarness{live: map[string]*incarnation{}, ctx: ctx}
+	h.ctxs[0] = ctx
+	for k := 1; k <= 2; k++ {
+		h.ctxs[k], h.cancels[k] = context.WithCancel(ctx)
+	}
 	h.ts = NewTimers(h.emitter)
 	h.ts.Errors = make(chan interface{}, 1024)
 	for _, op := range c.Ops {
@@ -317,6 +435,40 @@ func checkTimers(c TimerCase) (v ev.Verdict) {
 			h.cancel(op.Id, nil)
 		case "wait":
 			time.Sleep(time.Duration(op.WaitMs) * time.Millisecond)
+		case "dropCtx":
+			h.dropCtx(op.Ctx)
+		case "contendDrop":
+			// A far-from-due timer's context ends while a requester that
+			// cancels the timer and makes a new one under the same id is
+			// queued on the timers' lock: the timer goroutine's own
+			// clean-up and the requester compete when the lock is freed.
+			h.make(TOp{Kind: "make", Id: op.Id, DelayMs: 5000, Ctx: op.Ctx}, nil)
+			h.mu.Lock()
+			inc := h.live[op.Id]
+			h.mu.Unlock()
+			if inc != nil && inc.ctx == op.Ctx && inc.delay == 5000 && !inc.cancelled && !inc.dropped && inc.fired == 0 {
+				h.ts.Lock()
+				done := make(chan struct{})
+				go func() {
+					defer close(done)
+					h.cancel(op.Id, nil)
+					h.make(TOp{Kind: "make", Id: op.Id, DelayMs: op.WaitMs}, nil)
+				}()
+				time.Sleep(time.Millisecond)
+				h.mu.Lock()
+				cancel, affected := h.markDropped(op.Ctx)
+				h.mu.Unlock()
+				cancel()
+				time.Sleep(time.Millisecond)
+				h.ts.Unlock()
+				<-done
+				h.opMu.Lock()
+				h.awaitGone(affected)
+				h.opMu.Unlock()
+				h.mu.Lock()
+				h.nearDue++
+				h.mu.Unlock()
+			}
 		case "contend":
 			// The timer becomes due while the timers' (exported) lock is
 			// held by someone else; meanwhile a requester cancels it and
@@ -367,7 +519,7 @@ func checkTimers(c TimerCase) (v ev.Verdict) {
 		h.mu.Lock()
 		waiting := 0
 		for _, inc := range h.incs {
-			if inc != nil && !inc.cancelled && inc.fired == 0 && inc.delay < 1000 {
+			if inc != nil && !inc.cancelled && !inc.dropped && inc.fired == 0 && inc.delay < 1000 {
 				waiting++
 			}
 		}
@@ -378,7 +530,7 @@ func checkTimers(c TimerCase) (v ev.Verdict) {
 		if time.Now().After(deadline) {
 			h.mu.Lock()
 			for _, inc := range h.incs {
-				if inc != nil && !inc.cancelled && inc.fired == 0 && inc.delay < 1000 {
+				if inc != nil && !inc.cancelled && !inc.dropped && inc.fired == 0 && inc.delay < 1000 {
 					h.fail("timer %q (incarnation %d, delay %d ms) was accepted, never cancelled, and has not fired %v after it was due", inc.id, inc.n, inc.delay, time.Since(inc.due))
 				}
 			}
@@ -395,7 +547,7 @@ func checkTimers(c TimerCase) (v ev.Verdict) {
 			h.mu.Lock()
 			outstanding := h.handlers
 			for _, inc := range h.incs {
-				if inc != nil && !inc.cancelled && inc.fired == 0 && inc.delay < 1000 {
+				if inc != nil && !inc.cancelled && !inc.dropped && inc.fired == 0 && inc.delay < 1000 {
 					outstanding++
 				}
 			}
@@ -408,7 +560,7 @@ func checkTimers(c TimerCase) (v ev.Verdict) {
 		h.mu.Lock()
 		var long []*incarnation
 		for _, id := range timerIds {
-			if inc := h.live[id]; inc != nil && !inc.cancelled && inc.fired == 0 && inc.delay >= 1000 {
+			if inc := h.live[id]; inc != nil && !inc.cancelled && !inc.dropped && inc.fired == 0 && inc.delay >= 1000 {
 				long = append(long, inc)
 			}
 		}
@@ -433,7 +585,10 @@ func checkTimers(c TimerCase) (v ev.Verdict) {
 		v.Failf("%s", h.bad)
 		return
 	}
-	v.NonTrivial = h.hreq > 0 || h.idReuse > 0 || h.nearDue > 0
+	v.NonTrivial = h.hreq > 0 || h.idReuse > 0 || h.nearDue > 0 || h.drops > 0
+	if h.drops > 0 {
+		v.Class("request-context-ended")
+	}
 	if h.hreq > 0 {
 		v.Class("requests-inside-handler")
 	}
